@@ -106,6 +106,7 @@ func c08Case(c *core.Ctx) *core.Result {
 	var log []string
 	kinds := map[string]bool{}
 	sect := &c08Sect{hdr: map[string]bool{}, ftr: map[string]bool{}}
+	explicitSect := false
 	nOps := r.Range(5, tierN(c.Tier, 60, 200))
 	fail := func(key, format string, a ...interface{}) {
 		res.Add(key, fmt.Sprintf(format, a...), "ops: "+strings.Join(tail(log, 30), " "))
@@ -155,7 +156,18 @@ func c08Case(c *core.Ctx) *core.Result {
 			mode = "append"
 			t := tag()
 			mustContain = t
-			switch r.Intn(14) {
+			switch r.Intn(15) {
+			case 14:
+				// a section-settings element of the caller's own (what Open leaves behind for a document with two sections): the body
+				// then holds more than one such element; the settings ledger no longer says which one counts, the structural
+				// clause (exactly one w:sectPr, last) still does
+				op = "Body.AddElement(SectionProperties)"
+				mustContain = ""
+				mode = "append-section"
+				explicitSect = true
+				cg = core.Catch(func() {
+					d.Body.AddElement(&document.SectionProperties{PageSize: &document.PageSizeXML{W: "11906", H: "16838"}})
+				})
 			case 0, 1, 2:
 				op = "AddParagraph"
 				cg = core.Catch(func() { retHandle = d.AddParagraph(t) })
@@ -375,6 +387,11 @@ func c08Case(c *core.Ctx) *core.Result {
 			sect = &c08Sect{hdr: map[string]bool{}, ftr: map[string]bool{}}
 		}
 		switch mode {
+		case "append-section":
+			// the caller's own section element goes to the end of the list, everything else stays
+			if len(after) != len(before)+1 || !sameSeq(before, after[:len(before)]) || !isSect(after[len(after)-1]) {
+				fail(op+"/append-disturbs-existing-elements", "%s: body is [%s], expected [%s] followed by the new section element", op, describe(after), describe(before))
+			}
 		case "append", "maybe-noop":
 			bn, an := nonSect(before), nonSect(after)
 			if mode == "maybe-noop" && sameSeq(before, after) {
@@ -448,7 +465,11 @@ func c08Case(c *core.Ctx) *core.Result {
 		}
 		// save at random points and at the end
 		if len(res.Findings) == 0 && (i == nOps-1 || r.Chance(1, 12)) {
-			c08CheckSaved(res, d, fail, sect)
+			led := sect
+			if explicitSect {
+				led = nil
+			}
+			c08CheckSaved(res, d, fail, led)
 		}
 	}
 	res.Nontrivial = len(kinds) >= 3 && res.Stats["calls"] >= 5
